@@ -269,11 +269,11 @@ package vanguard
 // C08 / C09 / C10 / C16: envelopingWriter
 
 //@ pred validLW(l, rw) = l != nil && l.buf != nil && l.rw == rw
-//@ pred sinkOK(s, rw) = (extern(s) && (typeIs(s, *bytes.Buffer) ==> unbox(s, *bytes.Buffer) != nil)) || (typeIs(s, *limitWriter) && validLW(unbox(s, *limitWriter), rw))
+//@ pred sinkOK(s, rw) = (extern(s) && (typeIs(s, *bytes.Buffer) ==> unbox(s, *bytes.Buffer) != nil && unbox(s, *bytes.Buffer) != rw.buf)) || (typeIs(s, *limitWriter) && validLW(unbox(s, *limitWriter), rw))
 //@ pred validEW(w) = w != nil && rwInv(w.rw) && w.w != nil && sinkOK(w.w, w.rw) && (w.current == nil || sinkOK(w.current, w.rw))
 // ewInv: between calls, an initialised live writer is either passing bytes through (-1) or inside
 // an envelope (1..5 bytes outstanding) or inside a payload whose sink exists.
-//@ pred relInv(w) = w.mustReleaseCurrent ==> w.current != nil && ((typeIs(w.current, *bytes.Buffer) && w.remainingBytes != -1) || (typeIs(w.current, *limitWriter) && w.rw.op.clientEnveloper != nil))
+//@ pred relInv(w) = w.mustReleaseCurrent ==> w.current != nil && ((typeIs(w.current, *bytes.Buffer) && w.remainingBytes != -1) || (typeIs(w.current, *limitWriter) && w.rw.op.clientEnveloper != nil && unbox(w.current, *limitWriter).buf != w.rw.buf))
 //@ pred ewInv(w) = validEW(w) && (w.currentIsTrailer ==> w.rw.op.serverEnveloper != nil)
 //@ |  && relInv(w)
 //@ |  && (w.initialized && w.err == nil ==>
@@ -300,7 +300,7 @@ package vanguard
 //@   ensures[C03] !old(w.initialized) && w.rw.op.serverEnveloper == nil && w.rw.op.clientEnveloper != nil && w.rw.contentLen != -1 && w.err == nil ==> w.remainingBytes == w.rw.contentLen
 //@   ensures[C10,C03] !old(w.initialized) && w.rw.op.serverEnveloper == nil && w.rw.op.clientEnveloper != nil && w.rw.contentLen > limitOf(w.rw.op) ==> w.err != nil && w.rw.endWritten
 //@   ensures old(w.rw.endWritten) ==> w.rw.endWritten
-//@   modifies w.initialized, w.writingEnvelope, w.remainingBytes, w.current, w.mustReleaseCurrent, w.err, $vanguard.limitWriter., $buf|owned, #RWB
+//@   modifies w.initialized, w.writingEnvelope, w.remainingBytes, w.current, w.mustReleaseCurrent, w.err, $vanguard.limitWriter., owned(unbox(w.current, *limitWriter).buf), owned(w.rw.buf), #RWB
 
 //@ func (*envelopingWriter).handleEnvelopeWritten
 //@   dispatch (io.Writer).Write: *limitWriter
@@ -315,7 +315,7 @@ package vanguard
 //@   ensures w.currentIsTrailer ==> w.rw.op.serverEnveloper != nil
 //@   ensures err != nil ==> w.current == old(w.current) && w.mustReleaseCurrent == old(w.mustReleaseCurrent) && w.remainingBytes == old(w.remainingBytes) && w.currentIsTrailer == old(w.currentIsTrailer)
 //@   ensures relInv(w) && (err == nil && !w.currentIsTrailer ==> !w.mustReleaseCurrent)
-//@   modifies w.writingEnvelope, w.current, w.mustReleaseCurrent, w.currentIsTrailer, w.trailerIsCompressed, w.remainingBytes, w.err, $buf|owned, #RWB
+//@   modifies w.writingEnvelope, w.current, w.mustReleaseCurrent, w.currentIsTrailer, w.trailerIsCompressed, w.remainingBytes, w.err, owned(unbox(w.current, *bytes.Buffer)), owned(w.rw.buf), #RWB
 
 //@ func (*envelopingWriter).handleTrailer
 //@   requires validEW(w) && relInv(w)
@@ -325,7 +325,7 @@ package vanguard
 //@   ensures[C09,C03] err == nil ==> w.rw.endWritten && w.err != nil
 //@   ensures validEW(w) && w.rw == old(w.rw) && w.initialized && (old(w.rw.endWritten) ==> w.rw.endWritten)
 //@   ensures relInv(w)
-//@   modifies w.mustReleaseCurrent, w.err, $buf|owned, #RWB
+//@   modifies w.mustReleaseCurrent, w.err, owned(unbox(w.current, *bytes.Buffer)), owned(w.rw.buf), #RWB
 
 //@ func (*envelopingWriter).Write
 //@   dispatch (io.Writer).Write: *limitWriter
@@ -345,6 +345,7 @@ package vanguard
 //@   ensures[C09] r0 == nil ==> w.err != nil && w.current == nil
 //@   ensures rwInv(w.rw) && w.rw == old(w.rw) && (old(w.rw.endWritten) ==> w.rw.endWritten)
 //@   ensures w.rw.w == old(w.rw.w) && w.rw.headersWritten == old(w.rw.headersWritten)
+//@   modifies w.remainingBytes, w.current, w.err, owned(unbox(w.current, *bytes.Buffer)), owned(unbox(w.current, *limitWriter).buf), owned(w.rw.buf), #RWB
 
 // ------------------------------------------------------------------------------------------------
 // C01 / C09 / C14: the message pipeline (stages: 0 empty, 1 read, 2 decoded, 3 send)
